@@ -1,10 +1,111 @@
-(* C03 property-level theorems (under construction). *)
-From Coq Require Import String List.
+(* C03 - Macro definition and expansion conform to the C standard.
+   Property-level statements only; proofs are in Proofs/C03*.v.
+
+   M = Model/C03.v   (line-for-line fuelled port of the macro code of preprocessor.py)
+   S = Spec/C03.v    (Prosser's hide-set algorithm with C99 placemarkers)
+
+   Level: PARTIAL.  The statement "M = S for every macro table" is false of the
+   faithful model; it is refuted by one closed witness per known-finding class
+   (the C03_conformance_refuted theorems), proved for the fragments below, and otherwise
+   covered by the differential run only (docs/C03.md). *)
+From Coq Require Import String List Bool.
 From CBI Require Import Lib.Data Lib.Res Model.C03tok Model.C03 Model.C03run Spec.C03.
+From CBI Require Import Proofs.C03w Proofs.C03d.
+From CBI Require Gen.C03_tables.
 Import ListNotations.
 Local Open Scope string_scope.
 
-Example C03_smoke :
-  expand_cur [] [mkTok KId false "a" true] = Ok [mkTok KId false "a" true].
-Proof. vm_compute. reflexivity. Qed.
-Print Assumptions C03_smoke.
+(* ------------------------------------------------------------------ *)
+(* command-line definitions                                            *)
+(* ------------------------------------------------------------------ *)
+(* For every macro name, every well-formed parameter list (or none) and EVERY
+   replacement list v:  -D'HEAD=v' yields exactly what `#define HEAD v` yields
+   (the same macro value, or the same error), and -DHEAD yields what
+   `#define HEAD 1` yields.  Token level: the lexing of "HEAD=v" into
+   HEAD, =, v is the subject of the differential run (finding
+   dashD-value-starts-with-equals is exactly where it fails). *)
+Theorem C03_cmdline_define :
+  forall name ps, wf_head ps ->
+    (forall v w w' we,
+        macro_from_deftokens (head w name ps ++ eq_tok we :: v)
+        = macro_from_define (head w' name ps ++ set_w_hd true v))
+    /\ (forall w w',
+        macro_from_deftokens (head w name ps)
+        = macro_from_define (head w' name ps ++ [default_tok true]))
+    /\ Gen.C03_tables.default_expansion = "1" /\ Gen.C03_tables.define_separator = "=".
+Proof.
+  intros name ps H. split; [|split].
+  - intros. now apply cmdline_define_value.
+  - intros. now apply cmdline_define_default.
+  - exact default_is_one.
+Qed.
+Print Assumptions C03_cmdline_define.
+
+(* ------------------------------------------------------------------ *)
+(* full conformance is refuted: one closed witness per finding class    *)
+(* ------------------------------------------------------------------ *)
+Theorem C03_conformance_refuted_dashD_value_starts_with_equals :
+  exists cs input, disagree cs input.
+Proof. exact (ex_intro _ _ (ex_intro _ _ refuted_dashD_equals)). Qed.
+Print Assumptions C03_conformance_refuted_dashD_value_starts_with_equals.
+
+Theorem C03_conformance_refuted_variadic_comma_white_space :
+  exists cs input, disagree cs input.
+Proof. exact (ex_intro _ _ (ex_intro _ _ refuted_variadic_comma_white)). Qed.
+Print Assumptions C03_conformance_refuted_variadic_comma_white_space.
+
+Theorem C03_conformance_refuted_operand_token_resubstituted :
+  exists cs input, disagree cs input.
+Proof. exact (ex_intro _ _ (ex_intro _ _ refuted_operand_resubstituted)). Qed.
+Print Assumptions C03_conformance_refuted_operand_token_resubstituted.
+
+Theorem C03_conformance_refuted_operand_only_argument_expanded :
+  exists cs input, disagree cs input.
+Proof. exact (ex_intro _ _ (ex_intro _ _ refuted_operand_only_expanded)). Qed.
+Print Assumptions C03_conformance_refuted_operand_only_argument_expanded.
+
+(* the backstop: max_level - 1 nested object-like macros give the token 0; one fewer is fine *)
+Theorem C03_conformance_refuted_depth_limit :
+  disagree (chain 0 (Nat.pred (Nat.pred Gen.C03_tables.max_level))) [tI "a"]
+  /\ agree (chain 0 (Nat.pred (Nat.pred (Nat.pred Gen.C03_tables.max_level)))) [tI "a"].
+Proof. exact (conj refuted_depth_limit depth_below_limit). Qed.
+Print Assumptions C03_conformance_refuted_depth_limit.
+
+(* ------------------------------------------------------------------ *)
+(* the defects that were repaired: the model with the original         *)
+(* behaviour disagrees with S on the witness, the current model agrees  *)
+(* ------------------------------------------------------------------ *)
+Theorem C03_repaired_defects_refuted_and_now_conform :
+     was_wrong (run_M_with true cur_cat_fix cur_str_white cur_base cur_rescan cur_va_fix)
+               w_str [tI "S"; tP "("; tIw "a"; tP ")"]
+  /\ was_wrong (run_M_with cur_lead false cur_str_white cur_base cur_rescan cur_va_fix)
+               w_cat [tI "F"; tP "("; tI "a"; tP ","; tP ")"]
+  /\ was_wrong (run_M_with cur_lead false cur_str_white cur_base cur_rescan cur_va_fix)
+               w_cat3 [tI "F"; tP "("; tP ","; tP ","; tN "1"; tP ")"]
+  /\ was_wrong (run_M_with cur_lead cur_cat_fix cur_str_white (Some "None") cur_rescan cur_va_fix)
+               [def_obj false [tIw "None"; tNw "1"] "None" [tN "1"]] [tI "None"]
+  /\ was_wrong (run_M_with cur_lead cur_cat_fix cur_str_white cur_base true cur_va_fix)
+               w_fg [tI "f"; tP "("; tN "2"; tP ")"; tP "("; tN "9"; tP ")"]
+  /\ was_wrong (run_M_with cur_lead cur_cat_fix cur_str_white cur_base true cur_va_fix) w_lp [tI "X"]
+  /\ was_wrong (run_M_with cur_lead cur_cat_fix cur_str_white cur_base cur_rescan false)
+               w_log [tI "LOG"; tP "("; tN "1"; tP ")"]
+  /\ was_wrong (run_M_with cur_lead cur_cat_fix false cur_base cur_rescan cur_va_fix)
+               w_tb [tI "T"; tP "("; tI "b"; tP ")"].
+Proof.
+  exact (conj original_leading_blank (conj original_empty_paste_operand (conj original_two_empty_paste_operands
+        (conj original_macro_named_None (conj original_rescan_following_source
+        (conj original_rescan_paren_indirection (conj original_variadic_unused original_string_white))))))).
+Qed.
+Print Assumptions C03_repaired_defects_refuted_and_now_conform.
+
+(* ------------------------------------------------------------------ *)
+(* non-vacuity                                                         *)
+(* ------------------------------------------------------------------ *)
+(* a variadic head with three parameters satisfies the hypothesis of C03_cmdline_define,
+   and the macro it builds is a real one *)
+Example C03_nonvacuous_cmdline :
+  wf_head (Some [PName "a"; PName "b"; PDots])
+  /\ exists m, macro_from_deftokens (head false "F" (Some [PName "a"; PName "b"; PDots])
+                                      ++ eq_tok false :: [tI "a"; tO "##"; tI "b"; tIw "__VA_ARGS__"]) = Ok m
+               /\ m_args m = ["a"; "b"; "__VA_ARGS__"] /\ m_variadic m = true /\ m_strcat m = true.
+Proof. split; [cbn; auto|]. eexists. vm_compute. repeat split. Qed.
